@@ -24,12 +24,15 @@ class Ctx:
         self.manual = []  # statuses waiting for the environment
         self.statuses = []
         self.devices = {}
+        self.results = {}  # op index -> object the operation returned (reading dict, status)
+        self.last_op = -1
         self.raised = []  # exception objects raised by device operations (fault plan)
         self.status_excs = []  # exception objects carried by failed statuses
 
     def op(self, dev, op, *args, fallible=True):
         i = self.nops
         self.nops += 1
+        self.last_op = i
         self.ledger.append((i, dev.name, op, args, self.loop.nsteps))
         self.timeline.append(("dev", dev.name, op, args, i))
         if fallible:
@@ -101,6 +104,7 @@ class FakeStatus:
 def make_status(ctx, label, policy, fault=None, on_finish=None):
     """policy: ('now',) | ('delay', d) | ('manual',).  fault: None | 'fail' | 'fail_late'."""
     st = FakeStatus(ctx, label)
+    ctx.results[ctx.last_op] = st
     st.on_finish = on_finish
     ok = fault is None
     kind = policy[0]
@@ -217,7 +221,9 @@ class FakeMotor(_Base):
 
     def read(self):
         self.ctx.op(self, "read")
-        return self._ret({self.name: {"value": self._pos, "timestamp": self.ctx.loop.time()}})
+        r = {self.name: {"value": self._pos, "timestamp": self.ctx.loop.time()}}
+        self.ctx.results[self.ctx.last_op] = r
+        return self._ret(r)
 
     def describe(self):
         return self._ret({self.name: _dk(f"fake:{self.name}")})
@@ -289,7 +295,9 @@ class FakeDet(_Base):
         self.ctx.op(self, "read")
         t = self.ctx.loop.time()
         v = self.value()
-        return self._ret({k: {"value": v + i, "timestamp": t} for i, k in enumerate(self.keys)})
+        r = {k: {"value": v + i, "timestamp": t} for i, k in enumerate(self.keys)}
+        self.ctx.results[self.ctx.last_op] = r
+        return self._ret(r)
 
     def describe(self):
         return self._ret({k: _dk(f"fake:{self.name}:{k}") for k in self.keys})
